@@ -55,7 +55,7 @@ def pSource : P Source := do
   let par ← pPar
   let bs ← pOptInt "-"; let be ← pOptInt "-"
   let bounds ← match bs, be with
-    | some a, some b => if a ≤ b then pure (some (a, b)) else throw "desc: bounds"
+    | some a, some b => pure (some (a, b))
     | .none, .none => pure .none
     | _, _ => throw "bounds?"
   match (← tok) with
@@ -88,8 +88,8 @@ def pSame : P Bool := do
   | t => throw s!"same? {t}"
 
 def pRGChild : P RGChild := do
-  let g ← pNat; let s ← pInt; let e ← pInt; let same ← pSame; let m ← pMSeq
-  pure ⟨g, s, e, same, m⟩
+  let g ← pNat; let s ← pInt; let e ← pInt; let st ← pStrand; let same ← pSame; let m ← pMSeq
+  pure ⟨g, s, e, st, same, m⟩
 
 def pRChild : P RChild := do
   let g ← pNat; let k ← pKind; let s ← pInt; let e ← pInt; let ids ← pIdents
@@ -154,6 +154,7 @@ def diagChild (e a : RChild) : List String :=
   ++ (if e.gcs.map (·.guid) ≠ a.gcs.map (·.guid) then ["grandchildren"]
       else ((e.gcs.zip a.gcs).map fun (x, y) =>
         (if x.start ≠ y.start ∨ x.stop ≠ y.stop then ["coords"] else [])
+        ++ (if x.strand ≠ y.strand then ["strand"] else [])
         ++ (if x.same ≠ y.same then ["to_dict"] else [])
         ++ (if x.mseq ≠ y.mseq then [if e.kind = .var then "mseq-variant" else "mseq"] else [])).flatten)
 
@@ -190,27 +191,29 @@ def ops : List (String × Op) := [
       let s ← pOptInt "N"; let e ← pOptInt "N"
       let co ← pBool; let cw ← pBool; let ex ← pBool
       pArrow; let a ← pAns
+      if ¬ constructible src then pure "n/a" else
       pure (explain (expectQueryByPosition src ⟨s, e, co, cw, ex⟩) a)),
   ("qguid", do
       let src ← pSource; let ids ← pNatList; pArrow; let a ← pAns
       -- id lists are sets in the property's quantifier; a repeated id is outside it
-      if ¬ noDup ids then pure "n/a" else pure (explain (expectIdResult src (keptByGuids src ids)) a)),
+      if ¬ noDup ids ∨ ¬ constructible src then pure "n/a" else pure (explain (expectIdResult src (keptByGuids src ids)) a)),
   ("qig", do
       let src ← pSource; let ids ← pNatList; pArrow; let a ← pAns
-      if ¬ noDup ids then pure "n/a" else pure (explain (expectIdResult src (keptByIntervalGuids src allKinds ids)) a)),
+      if ¬ noDup ids ∨ ¬ constructible src then pure "n/a" else pure (explain (expectIdResult src (keptByIntervalGuids src allKinds ids)) a)),
   ("qtg", do
       let src ← pSource; let ids ← pNatList; pArrow; let a ← pAns
-      if ¬ noDup ids then pure "n/a" else pure (explain (expectIdResult src (keptByIntervalGuids src [.gene] ids)) a)),
+      if ¬ noDup ids ∨ ¬ constructible src then pure "n/a" else pure (explain (expectIdResult src (keptByIntervalGuids src [.gene] ids)) a)),
   ("qfg", do
       let src ← pSource; let ids ← pNatList; pArrow; let a ← pAns
-      if ¬ noDup ids then pure "n/a" else pure (explain (expectIdResult src (keptByIntervalGuids src [.feat] ids)) a)),
+      if ¬ noDup ids ∨ ¬ constructible src then pure "n/a" else pure (explain (expectIdResult src (keptByIntervalGuids src [.feat] ids)) a)),
   ("qfid", do
       let src ← pSource; let ids ← pIdentList; pArrow; let a ← pAns
+      if ¬ constructible src then pure "n/a" else
       pure (explain (expectIdResult src (keptByIdentifiers src ids)) a)),
   ("cqg", do
       let src ← pSource; let idx ← pNat; let ids ← pNatList; pArrow; let a ← pCAns
       match nth? src.children idx with
-      | some c => if ¬ noDup ids then pure "n/a" else pure (explainChild src c ids a)
+      | some c => if ¬ noDup ids ∨ ¬ constructible src then pure "n/a" else pure (explainChild src c ids a)
       | none => throw "child index")
 ]
 end BioCantor.Driver.SpecQuery
